@@ -1129,6 +1129,23 @@ def oracle_C15(cmds, impl, model, stats: Stats):
 
 
 # ------------------------------------------------------------------------------ C10
+def hook_computations(hooks: str) -> list[tuple[str, str]]:
+    """(kind, name) for every hook call in a `hooks=` log that persists rows under a materialization name."""
+    out = []
+    starts = [m.start() for m in re.finditer(r"<(?:transfer|materialize) ", hooks)]
+    for i, st in enumerate(starts):
+        entry = hooks[st:starts[i + 1] if i + 1 < len(starts) else len(hooks)]
+        m = re.search(r" (\S+) triv=[TF]>", entry)
+        if m is None:
+            continue
+        name = m.group(1)
+        if entry.startswith("<materialize "):
+            out.append(("materialize", name))
+        elif name != "-":
+            out.append(("transfer", name))
+    return out
+
+
 def oracle_C10(cmds, impl, model, stats: Stats):
     ctx = Ctx(cmds, impl, model)
     stats.corr_diffs = getattr(stats, "corr_diffs", []) + sql_correspondence(ctx, stats, cmds)
@@ -1137,6 +1154,7 @@ def oracle_C10(cmds, impl, model, stats: Stats):
     paid_m: set[str] = set()         # ... according to the MODEL (proved write-once / evaluate-once, Props/C10)
     last: dict[str, list] = {}       # latest printed tree of every pool relation
     last_text: dict[str, str] = {}
+    computed: dict[str, int] = {}    # materialization name -> number of hook calls that computed its rows
     for k, c in enumerate(ctx.cmds):
         il = impl[k]
         # payloads never disappear: once `#k+` was printed, `#k` is never printed without `+` again
@@ -1157,6 +1175,18 @@ def oracle_C10(cmds, impl, model, stats: Stats):
             txt = il[3:].split(" | ")[0]
             last[c[1]] = proto.parse_line(txt)[0]
             last_text[c[1]] = txt
+        if c[0] == "process" and il.startswith("ok ") and " || hooks=" in il:
+            # every materialization is computed at most once: a hook that persists the rows under the name of
+            # a materialization (transfer with materialize_as, or materialize) runs once per name - within one
+            # `process` call and over the whole history (names are unique per materialization command)
+            hooks = il.split(" || hooks=", 1)[1]
+            names = [nm for _, nm in hook_computations(hooks)]
+            stats.note(cmds[k] + hooks, bool(names), "process:hooks", "computes" if names else "no-compute")
+            for nm in names:
+                computed[nm] = computed.get(nm, 0) + 1
+                if computed[nm] > 1:
+                    out.append(Violation("C10", "materialization-computed-twice",
+                                         f"{cmds[k]}: the rows of materialization {nm} were computed again: {hooks[:300]}"))
         if c[0] == "attach":
             root = last.get(c[1])
             if root is None:
